@@ -153,7 +153,9 @@ func controlsFrame(cp *Prog, r *Report) {
 	expectControl(r, "R-TAB/parity", func(cr *Report) {
 		ruleDelimParity(cp, cr, le, "tab", "delimsGood")
 		ruleDelimParity(cp, cr, le, "tab", "delimsBad")
-	}, "tab.delimsBad")
+		ruleDelimParity(cp, cr, le, "tab", "delimsOrnate")
+		ruleDelimParity(cp, cr, le, "tab", "delimsOrnateBad")
+	}, "tab.delimsBad", "tab.delimsOrnateBad")
 }
 
 // ruleBidiParagraphs — R-BIDI/par: bidi.Paragraph.SetString / SetBytes stop at the first paragraph separator (class B) and
